@@ -1310,12 +1310,12 @@ class C02(Prop):
                 res.note_case(("witness", nm))
             self._scripts(ctx, res, ctx.scale(220, 2000), 8, seen, lines, outs, spans)
             ctx.log(f"scripts done: {res.evaluations} calls compared, {len(res.failures)} failing signatures")
-            self._concurrent(ctx, res, ctx.scale(340, 3500), seen, lines, outs, spans, thorough=not ctx.quick)
+            self._concurrent(ctx, res, ctx.scale(340, 3000), seen, lines, outs, spans, thorough=not ctx.quick)
             ctx.log(f"concurrent scenarios done ({len(lines)} trace lines)")
             # client churn.  (When a client disconnects with calls pending, the server's worker thread and its socket
             # thread race on the peer map — `send` may or may not still see the connection — so those scenarios are
             # judged by the outcome oracle only; the quiescent-churn ones are also replayed on the Lean model.)
-            self._churn(ctx, res, ctx.scale(90, 1200), seen, lines, outs, spans, thorough=not ctx.quick)
+            self._churn(ctx, res, ctx.scale(90, 700), seen, lines, outs, spans, thorough=not ctx.quick)
             ctx.log(f"client churn scenarios done ({len(lines)} trace lines)")
             self._diff(res, lines, outs, spans)
             # many futures outstanding at once in one context (address uniqueness far beyond a handful of callers)
